@@ -390,4 +390,54 @@ example : decodeBinaryCondition (fun _ => none) [0x02, 0x01, 0x01, 0x00, 0x01, 0
 example : decodeBinaryCondition (fun _ => none) [0x02, 0x01, 0x01, 0x01, 0x00, 0x01] = none := by rfl
 example : decodeBinaryCondition (fun _ => none) [0x02, 0x00] = none := by rfl
 
+/-- The decoders of tree-shaped input (stack items: `WitnessRule.FromStackItem`; JSON:
+`UnmarshalConditionJSON`) accept exactly the trees within the permitted nesting and width. -/
+theorem tree_decoders_exact (c : Cond) :
+    admit c maxConditionNesting = true ↔ (c.depth ≤ maxConditionNesting ∧ c.widthOk = true) :=
+  admit_iff c maxConditionNesting
+
+example : admit (.and [.not (.boolean true)]) maxConditionNesting = true := by decide
+example : admit (.and [.not (.not (.boolean true))]) maxConditionNesting = false := by decide
+
+/-! ### Group lookups need ReadStates -/
+
+/-- Without the ReadStates flag the outcome of the check (boolean or fault) does not depend on any
+contract's manifest: no group information is read. -/
+theorem no_manifest_read_without_flag (e : Env) (k : Hash → Option (List Key)) (signers : List Signer) (h : Hash)
+    (hrs : e.cur.readStates = false) :
+    checkWitness (e.withContracts k) signers h = checkWitness e signers h := by
+  have hc : (e.withContracts k).calling = e.calling := rfl
+  simp only [checkWitness, checkScope, hc, scanSigners_noRS e k hrs h signers]
+
+example : checkWitness (exDeepNoRS.withContracts (fun _ => some [0x61, 0x62])) [sg 0xA1 scCalledByEntry] 0xA1
+    = checkWitness exDeepNoRS [sg 0xA1 scCalledByEntry] 0xA1 :=
+  no_manifest_read_without_flag _ _ _ _ rfl
+
+/-! ### What the wire format admits -/
+
+/-- `Signer.DecodeBinary` only accepts signers whose scope byte has no unknown bit and has Global only
+alone, with at most 16 contracts / groups / rules, each rule an Allow or Deny with a condition within the
+permitted nesting; lists are only present with their scope bit. -/
+theorem signer_decoder_wellformed (dk : Bytes → Option (Key × Bytes)) (bs : Bytes) (s : Signer) (r : Bytes)
+    (h : decodeSigner dk bs = some (s, r)) : s.wellFormed :=
+  decodeSigner_spec dk bs s r h
+
+/-- For every signer the wire format admits, the Global bit is the Global scope (so the equality test of
+witness.go:73 loses nothing), and such a signer passes everywhere. -/
+theorem global_is_exclusive (s : Signer) (hw : s.wellFormed) :
+    hasScope s.scopes scGlobal = true ↔ s.scopes = scGlobal := by
+  constructor
+  · intro hg
+    have := hw.1
+    simp only [validScopes, Bool.and_eq_true, Bool.not_eq_true', Bool.and_eq_false_iff] at this
+    rcases this.2 with h1 | h1
+    · rw [hg] at h1; cases h1
+    · simpa using h1
+  · intro h; rw [h]; decide
+
+-- a signer with scope byte CalledByEntry|CustomContracts and one contract decodes; Global|CalledByEntry does not
+example : (decodeSigner (fun _ => none) ((List.replicate 20 0xAA) ++ [0x11, 0x01] ++ List.replicate 20 0xBB ++ [0x07])).map
+    (fun p => (p.1.scopes, p.1.allowedContracts.length, p.2)) = some (0x11, 1, [0x07]) := by decide
+example : decodeSigner (fun _ => none) ((List.replicate 20 0xAA) ++ [0x81]) = none := by rfl
+
 end NeoModel.Witness
